@@ -459,3 +459,35 @@ Definition get_parents (v : bytes) : outcome (list bytes) :=
 (** ** Abstract digests (what the theorems quantify over) *)
 Record digest := { d_fn : N; d_hash : bytes; d_size : Z; d_inst : bytes }.
 Definition pack (d : digest) : bytes := pack_raw (d_fn d) (d_hash d) (d_size d) (d_inst d).
+
+(** ** Specification vocabulary (what "valid" means in the theorems) *)
+Definition supported_enums : list N := map fst c20_supported.
+Definition hash_bytes_of (fn : N) : option N :=
+  match assoc fn c20_bare_by_enum with Some f => Some (snd f) | None => None end.
+
+(** a component of an instance name: non-empty, without '/', not a reserved keyword *)
+Definition valid_component (c : bytes) : Prop := c <> [] /\ ~ In slash c /\ ~ In c c20_reserved.
+(** a valid instance name: valid components joined by single slashes (the empty name has none) *)
+Definition valid_instance (inst : bytes) : Prop :=
+  exists comps, inst = join_slash comps /\ Forall valid_component comps.
+
+Record valid_digest (d : digest) : Prop := {
+  vd_fn : In (d_fn d) supported_enums;
+  vd_len : exists hb, hash_bytes_of (d_fn d) = Some hb /\ N.of_nat (length (d_hash d)) = 2 * hb;
+  vd_hex : forallb lowerhex (d_hash d) = true;
+  vd_size : (0 <= d_size d < 2 ^ 63)%Z;
+  vd_inst : valid_instance (d_inst d)
+}.
+
+Definition valid_compressor (c : N) : Prop :=
+  c = c20_compressor_identity \/ In c (map fst c20_compressors).
+
+Definition with_instance (d : digest) (inst : bytes) : digest :=
+  {| d_fn := d_fn d; d_hash := d_hash d; d_size := d_size d; d_inst := inst |}.
+
+(** [[]; [c1]; [c1;c2]; ...; l] *)
+Fixpoint prefixes {T} (l : list T) : list (list T) :=
+  match l with
+  | [] => [[]]
+  | x :: r => [] :: map (cons x) (prefixes r)
+  end.
